@@ -5,9 +5,6 @@ import (
 	"strings"
 
 	"go.opentelemetry.io/collector/pdata/pcommon"
-	"go.opentelemetry.io/collector/pdata/plog"
-	"go.opentelemetry.io/collector/pdata/pmetric"
-	"go.opentelemetry.io/collector/pdata/pprofile"
 )
 
 var (
@@ -89,48 +86,4 @@ func walkValues(rv reflect.Value, fn func(pcommon.Value), fm func(any)) {
 		}
 		walkValues(rv.Method(i).Call(nil)[0], fn, fm)
 	}
-}
-
-// sanitizeEmptyBytes replaces every zero-length Bytes value by a one-byte one
-// (the listed finding value-empty-bytes-becomes-empty); returns how many.
-func sanitizeEmptyBytes(v any) int {
-	n := 0
-	forEachValue(v, func(x pcommon.Value) {
-		if x.Type() == pcommon.ValueTypeBytes && x.Bytes().Len() == 0 {
-			x.Bytes().FromRaw([]byte{0})
-			n++
-		}
-	})
-	return n
-}
-
-// sanitizeJSONKnown removes, in place, the three field contents that the JSON
-// decoders are listed as losing, so that the JSON oracles can stay strict on
-// everything else.  Returns the fields it had to clear.
-func sanitizeJSONKnown(v any) []string {
-	seen := map[string]bool{}
-	forEachMessage(v, func(m any) {
-		switch x := m.(type) {
-		case plog.LogRecord:
-			if x.EventName() != "" {
-				x.SetEventName("")
-				seen["LogRecord.EventName"] = true
-			}
-		case pmetric.ExponentialHistogramDataPoint:
-			if x.ZeroThreshold() != 0 {
-				x.SetZeroThreshold(0)
-				seen["ExponentialHistogramDataPoint.ZeroThreshold"] = true
-			}
-		case pprofile.Profile:
-			if x.OriginalPayload().Len() > 0 {
-				x.OriginalPayload().FromRaw(nil)
-				seen["Profile.OriginalPayload"] = true
-			}
-		}
-	})
-	var out []string
-	for k := range seen {
-		out = append(out, k)
-	}
-	return out
 }
